@@ -239,13 +239,23 @@ def run_rev(sc):
         d = prow(r)
         d["tags"] = list(getattr(r, "tags", ()) or ())
         return d
-    t = {"tid": sc["tid"], "kind": "rev", "rows": sc["rows"], "rev": [], "revrev": [], "len": 0, "revlen": 0, "exc": ""}
+    t = {"tid": sc["tid"], "kind": "rev", "rows": sc["rows"], "rev": [], "revrev": [], "len": 0, "revlen": 0, "exc": "", "rev_again": [], "rev_of_changed": [],
+         "changed": [], "rev_after_own_change": [], "own_changed": []}
     try:
         s = Scaffold("s", [mkrow(r) for r in sc["rows"]])
         r1 = s.reverse()
         r2 = r1.reverse()
         t.update(rev=[pr(r) for r in r1.rows], revrev=[pr(r) for r in r2.rows], len=s.length, revlen=r1.length)
         t["rows"] = [pr(r) for r in s.rows]
+        # histories: reverse, change one of the two scaffolds, reverse again (nothing may be remembered from the first reversal)
+        extra = mkrow({"k": "F", "name": "zz", "s": 2, "e": 4, "st": 1, "tags": ["T"]})
+        r1.add_row(extra)
+        t["rev_again"] = [pr(r) for r in s.reverse().rows]          # s is unchanged: must equal the first reversal
+        t["rev_of_changed"] = [pr(r) for r in r1.reverse().rows]    # r1 = reversal + extra row
+        t["changed"] = [pr(r) for r in r1.rows]
+        s.add_row(extra)
+        t["rev_after_own_change"] = [pr(r) for r in s.reverse().rows]
+        t["own_changed"] = [pr(r) for r in s.rows]
     except Exception as e:  # noqa: BLE001
         t["exc"] = type(e).__name__
     return t
